@@ -44,6 +44,8 @@ class _Helper(object):
         self.params = [x.arg for x in a.args]
         self.defaults = dict(zip(self.params[len(self.params) - len(a.defaults):], a.defaults))
         self.is_async = isinstance(node, ast.AsyncFunctionDef)
+        self.touches_attrs = any((isinstance(n, ast.Attribute) and isinstance(n.ctx, (ast.Store, ast.Del))) or
+                                 (isinstance(n, ast.Call) and isinstance(n.func, ast.Attribute)) for n in ast.walk(node))
         for n in ast.walk(node):
             if n is node:
                 continue
@@ -54,8 +56,8 @@ class _Helper(object):
                 self.ok = False      # recursion
             if isinstance(n, ast.Call) and isinstance(n.func, ast.Name) and n.func.id in ('locals', 'vars', 'super'):
                 self.ok = False
-        if not self._returns_in_tail(node.body):
-            self.ok = False
+        # `return h(...)` sites can take any helper (its returns simply become the caller's); other sites need tail returns
+        self.tail_ok = self._returns_in_tail(node.body)
 
     def _returns_in_tail(self, body):
         """every Return is the last statement of `body` or sits (recursively) in a branch of a trailing If whose remaining
@@ -134,29 +136,41 @@ def _tail(body, mk, at):
 
 class Inliner(object):
     def __init__(self, trees):
-        self.helpers = {}       # name -> _Helper (unique in the package)
+        self.cls_helpers = {}       # method name -> _Helper (unique among the classes of the package)
+        self.mod_helpers = {}       # module -> {function name -> _Helper}   (a bare name is looked up in its own module)
+        self.cur = None
         dup = set()
         for m, t in trees.items():
+            self.mod_helpers[m] = {}
             for st in t.body:
                 if isinstance(st, (ast.FunctionDef, ast.AsyncFunctionDef)):
-                    self._add(st, None, m, dup)
+                    if _is_private(st.name) and st.name not in KNOWN_HELPERS:
+                        self.mod_helpers[m][st.name] = _Helper(st, None, m)
                 elif isinstance(st, ast.ClassDef):
                     for f in st.body:
                         if isinstance(f, (ast.FunctionDef, ast.AsyncFunctionDef)):
                             self._add(f, st, m, dup)
         for d in dup:
-            self.helpers.pop(d, None)
+            self.cls_helpers.pop(d, None)
         self.count = 0
         self.tmp = 0
+        self.opaque = set()
 
     def _add(self, f, cls, m, dup):
         name = f.name
         if not _is_private(name) or name in KNOWN_HELPERS:
             return
-        if name in self.helpers:
+        if name in self.cls_helpers:
             dup.add(name)
             return
-        self.helpers[name] = _Helper(f, cls, m)
+        self.cls_helpers[name] = _Helper(f, cls, m)
+
+    def all_helpers(self):
+        for h in self.cls_helpers.values():
+            yield h
+        for d in self.mod_helpers.values():
+            for h in d.values():
+                yield h
 
     # ---- call recognition
     def _callee(self, call, cls_stack):
@@ -176,9 +190,10 @@ class Inliner(object):
             # name mangling of __x inside a class
         if name is None:
             return None
-        h = self.helpers.get(name)
+        table = self.cls_helpers if bound else self.mod_helpers.get(self.cur, {})
+        h = table.get(name)
         if h is None and name.startswith('_') and '__' in name[1:]:
-            h = self.helpers.get('__' + name.split('__', 1)[1])
+            h = table.get('__' + name.split('__', 1)[1])
         if h is None or not h.ok:
             return None
         if bound and h.cls is None:
@@ -216,6 +231,8 @@ class Inliner(object):
         for p in params:
             a = binding[p]
             simple = isinstance(a, (ast.Name, ast.Constant)) or (isinstance(a, ast.Attribute) and _modconst(a))
+            if not simple and isinstance(a, ast.Attribute) and _selfchain(a) and (h.cls is None or h.static) and not h.touches_attrs:
+                simple = True       # a function without `self` that stores no attribute and calls no method cannot change self.<attr> between its reads
             if isinstance(a, ast.Name) and a.id == p and p in overwritten:
                 continue        # x = h(x): the caller's x is overwritten by the call anyway, the helper may work on it directly
             if simple and p not in assigned:
@@ -275,7 +292,7 @@ class Inliner(object):
                 t = s.test
                 neg = isinstance(t, ast.UnaryOp) and isinstance(t.op, ast.Not)
                 core = t.operand if neg else t
-                if self._callee(core, cls_stack) and fn.name != self._callee(core, cls_stack)[0].node.name:
+                if self._callee(core, cls_stack) and fn.name != self._callee(core, cls_stack)[0].node.name and self._callee(core, cls_stack)[0].tail_ok:
                     self.tmp += 1
                     nm = '_v%d' % self.tmp
                     pre = ast.copy_location(ast.Assign(targets=[ast.Name(id=nm, ctx=ast.Store())], value=core), s)
@@ -286,6 +303,9 @@ class Inliner(object):
                     continue
             val = getattr(s, 'value', None) if isinstance(s, (ast.Expr, ast.Assign, ast.Return)) else None
             hit = self._callee(val, cls_stack) if val is not None else None
+            if hit and not (hit[0].tail_ok or isinstance(s, ast.Return)):
+                self.opaque.add(hit[0].node.name)
+                hit = None
             if hit and hit[0].node is not fn and (not isinstance(val, ast.Await) or hit[0].is_async) and (isinstance(val, ast.Await) or not hit[0].is_async):
                 h, call, bound = hit
                 over = set()
@@ -298,7 +318,10 @@ class Inliner(object):
                 if b is not None:
                     pre, hb = b
                     if isinstance(s, ast.Return):
-                        new = pre + _tail(hb, lambda e, at: [ast.copy_location(ast.Return(value=e), at)], s)
+                        # the helper's returns become the caller's, wherever they are; falling off the end returns None
+                        new = pre + hb
+                        if not _ends(hb):
+                            new.append(ast.copy_location(ast.Return(value=ast.copy_location(ast.Constant(value=None), s)), s))
                     elif isinstance(s, ast.Expr):
                         new = pre + _tail(hb, lambda e, at: ([ast.copy_location(ast.Expr(value=e), at)] if e is not None and not isinstance(e, (ast.Name, ast.Constant)) else []), s)
                     else:
@@ -314,7 +337,8 @@ class Inliner(object):
             out.append(s)
         return out
 
-    def module(self, tree):
+    def module(self, tree, mname=None):
+        self.cur = mname
         for st in tree.body:
             if isinstance(st, (ast.FunctionDef, ast.AsyncFunctionDef)):
                 self.function(st, [])
@@ -329,6 +353,12 @@ class Inliner(object):
         return tree
 
 
+def _selfchain(a):
+    while isinstance(a, ast.Attribute):
+        a = a.value
+    return isinstance(a, ast.Name) and a.id == 'self'
+
+
 def _modconst(a):
     """signal.SIGHUP, select.POLLIN, errno.EIO ...: an attribute chain rooted at a module-like name (not self / cls)"""
     while isinstance(a, ast.Attribute):
@@ -340,16 +370,17 @@ def inline_all(trees, skip=()):
     inl = Inliner(dict((n, t) for n, t in trees.items() if n not in skip))
     for n, t in trees.items():
         if n not in skip:
-            inl.module(t)
+            inl.module(t, n)
     if inl.count:
         # a helper every call of which was written back into its caller is no longer part of the program the rules look at
-        for name, h in inl.helpers.items():
+        for h in list(inl.all_helpers()):
+            name = h.node.name
             if not h.ok:
                 continue
             mangled = ('_%s%s' % (h.cls.name.lstrip('_'), name)) if (h.cls is not None and name.startswith('__')) else name
             refs = 0
             for n, t in trees.items():
-                if n in skip:
+                if n in skip or (h.cls is None and n != h.module):
                     continue
                 for x in ast.walk(t):
                     if isinstance(x, ast.Attribute) and x.attr in (name, mangled):
@@ -364,4 +395,18 @@ def inline_all(trees, skip=()):
                     owner.remove(h.node)
                     if not owner:
                         owner.append(ast.Pass())
+    # helpers that are still called somewhere: the rules cannot see through those calls
+    remaining = set()
+    if True:
+        for h in inl.all_helpers():
+            name = h.node.name
+            if [d for d in h.node.decorator_list if ast.unparse(d) != 'staticmethod']:
+                continue          # a decorated helper (a cache, a context manager) is not an extracted piece of its caller
+            for n, t in trees.items():
+                if n in skip or (h.cls is None and n != h.module):
+                    continue
+                for x in ast.walk(t):
+                    if isinstance(x, ast.Call) and ((isinstance(x.func, ast.Attribute) and x.func.attr == name) or (isinstance(x.func, ast.Name) and x.func.id == name)):
+                        remaining.add(name)
+    inline_all.opaque = remaining
     return inl.count
